@@ -3,6 +3,8 @@ package rules
 import (
 	"fmt"
 	"go/token"
+	"go/types"
+	"sort"
 	"strings"
 	"time"
 
@@ -14,7 +16,7 @@ import (
 func init() {
 	Register(&Prop{
 		ID:   "C17",
-		Expl: "Decides the table/constant structure behind the negotiation timeouts. A negotiation waiting state is a waiting state (its action may return NoOp) that accepts an event injected with an agreement message as context (requester) or an event of the payment callback that leads to the broadcast state (swap-out responder). (R1) each such state accepts Event_OnTimeout and that edge leads to the cancel-sending action and then to a terminal state; (R2) on every table path from the default state into it an action arms a timeout, all armed durations constant-fold to 10 minutes and the fee invoice expiry to 600 s; (R3) after a restart (timers are memory only) the state is FailOnrecover and accepts Event_ActionFailed, or its own action re-arms the timer; (R4) every other state that accepts Event_OnTimeout is neither reachable after a successful claim payment nor after the opening broadcast; (R5) the function the timeout service runs when a timer fires (found through the service implementation's factory field) reaches SendEvent(Event_OnTimeout) on every path on which the swap was found; a skip that depends on the current state (also inside a helper) is evaluated for every state that accepts Event_OnTimeout and can be reached from an arming state, and must let each of them through.",
+		Expl: "Decides the table/constant structure behind the negotiation timeouts. A negotiation waiting state is a waiting state (its action may return NoOp) that accepts an event injected with an agreement message as context (requester) or an event of the payment callback that leads to the broadcast state (swap-out responder). (R1) each such state accepts Event_OnTimeout and that edge leads to the cancel-sending action and then to a terminal state; (R2) on every table path from the default state into it an action arms a timeout, all armed durations constant-fold to 10 minutes and the fee invoice expiry to 600 s; (R3) after a restart (timers are memory only) the state is FailOnrecover and accepts Event_ActionFailed, or its own action re-arms the timer; (R4) every other state that accepts Event_OnTimeout is neither reachable after a successful claim payment nor after the opening broadcast; (R5) the function the timeout service runs when a timer fires (found through the service implementation's factory field) reaches SendEvent(Event_OnTimeout) on every path on which the swap was found; a skip that depends on the current state (also inside a helper) is evaluated for every state that accepts Event_OnTimeout and can be reached from an arming state, and must let each of them through; (R6) the cancel func of the timer (the second result of the context constructor whose context is handed to addNewTimeOut; the field the arming chains store it into is found from those chains) is invoked only after a completed transition: in SendEvent behind the code that sets the new state, in actions of states that are not timed waiting states, or in service code behind the nil-error edge of SendEvent; an invocation that a handler or helper reaches before SendEvent is a violation (the call chain is named); no invocation at all is fine (the timer runs its full course).",
 		NotD: "Timer accuracy; that the Lightning node reports an expired invoice (the CLN notifier ignores 'expired'; with R1 the timer covers it).",
 		Run:  runC17,
 	})
@@ -26,6 +28,7 @@ func runC17(c *an.Check) {
 	c.Rule("C17.R3", "a negotiation waiting state survives restart: FailOnrecover with an ActionFailed edge, or re-arms")
 	c.Rule("C17.R4", "Event_OnTimeout is accepted only before payment / broadcast")
 	c.Rule("C17.R5", "the timeout callback delivers Event_OnTimeout to every armed state that accepts it")
+	c.Rule("C17.R6", "the negotiation timer is cancelled only after the swap has left the armed waiting state")
 	if !needEffects(c, fxAddTimeout, fxGetPayreq, fxOpenTx, fxPay) {
 		return
 	}
@@ -189,6 +192,9 @@ func runC17(c *an.Check) {
 		}
 		c.AtLeast("C17.R5", "timeout callbacks", len(roots), 1)
 	}
+
+	// R6: who cancels the timer
+	c17TimerRelease(c, ts)
 
 	// R2 constants. A duration / expiry that is a parameter of an arming helper is
 	// resolved at the helper's callers; one instance per arming chain.
@@ -399,3 +405,258 @@ func c17ReachAvoiding(t *TI, from, to string, avoid map[string]bool) bool {
 }
 
 var _ = ssa.Instruction(nil)
+
+// ---- R6: the timer is only released by leaving the wait --------------------------------------
+
+// c17CancelFields finds the fields into which the arming chains store the cancel
+// func of the timer's context: the context argument of addNewTimeOut is result 0
+// of a call whose result 1 (a func) is stored into a struct field.
+func c17CancelFields(w *an.World) map[string]bool {
+	out := map[string]bool{}
+	for _, site := range findCallSites(w, fxAddTimeout) {
+		args := site.Common().Args
+		if len(args) == 0 {
+			continue
+		}
+		for _, l := range w.Sources(args[0], an.FlowOpts{}).Leaves {
+			if l.Kind != "call" || l.Call == nil || l.Call.Referrers() == nil {
+				continue
+			}
+			for _, r := range *l.Call.Referrers() {
+				ex, ok := r.(*ssa.Extract)
+				if !ok || ex.Index == l.Idx || ex.Referrers() == nil {
+					continue
+				}
+				if _, isFunc := ex.Type().Underlying().(*types.Signature); !isFunc {
+					continue
+				}
+				var follow func(v ssa.Value, depth int)
+				follow = func(v ssa.Value, depth int) {
+					if v.Referrers() == nil || depth > 3 {
+						return
+					}
+					for _, rr := range *v.Referrers() {
+						switch x := rr.(type) {
+						case *ssa.Store:
+							if fa, ok := x.Addr.(*ssa.FieldAddr); ok && x.Val == v {
+								out[an.FieldName(fa.X.Type(), fa.Field)] = true
+							}
+						case *ssa.ChangeType:
+							follow(x, depth+1)
+						case *ssa.Phi:
+							follow(x, depth+1)
+						case ssa.CallInstruction:
+							// handed to a helper that stores it (armSwapTimeout-like)
+							if g := x.Common().StaticCallee(); g != nil && w.InModule(g) && g.Blocks != nil {
+								for k, a := range x.Common().Args {
+									if a == v && k < len(g.Params) {
+										follow(g.Params[k], depth+1)
+									}
+								}
+							}
+						}
+					}
+				}
+				follow(ex, 0)
+			}
+		}
+	}
+	return out
+}
+
+func c17TimerRelease(c *an.Check, ts []*TI) {
+	w := c.W
+	fields := c17CancelFields(w)
+	if !c.AtLeast("C17.R6", "fields holding the timer's cancel func (stored by the arming chains)", len(fields), 1) {
+		return
+	}
+	se := w.Func("swap", "(*SwapStateMachine).SendEvent")
+	rec := w.Func("swap", "(*SwapStateMachine).Recover")
+	if se == nil {
+		c.Anchor("(*SwapStateMachine).SendEvent does not resolve")
+		return
+	}
+	// invocations: dynamic calls whose callee value is loaded from such a field
+	type site struct {
+		fn   *ssa.Function
+		call ssa.CallInstruction
+		key  string
+	}
+	var sites []site
+	for key := range fields {
+		for _, in := range w.FieldReaders(key) {
+			fn := in.Parent()
+			if an.IsTestSupport(w.FnRel(fn)) || isDummy(w, fn) {
+				continue
+			}
+			// the loaded value (through copies) used as the callee of a call
+			var vals []ssa.Value
+			if v, ok := in.(ssa.Value); ok {
+				vals = append(vals, v)
+				if fa, isAddr := in.(*ssa.FieldAddr); isAddr && fa.Referrers() != nil {
+					for _, r := range *fa.Referrers() {
+						if ld, ok := r.(*ssa.UnOp); ok && ld.Op == token.MUL {
+							vals = append(vals, ld)
+						}
+					}
+				}
+			}
+			seen := map[ssa.Value]bool{}
+			for len(vals) > 0 {
+				v := vals[0]
+				vals = vals[1:]
+				if seen[v] || v.Referrers() == nil {
+					continue
+				}
+				seen[v] = true
+				for _, r := range *v.Referrers() {
+					switch x := r.(type) {
+					case ssa.CallInstruction:
+						if x.Common().Value == v && !x.Common().IsInvoke() {
+							sites = append(sites, site{fn, x, key})
+						}
+					case *ssa.Phi:
+						vals = append(vals, x)
+					case *ssa.ChangeType:
+						vals = append(vals, x)
+					case *ssa.Store:
+						if _, ok := x.Addr.(*ssa.Alloc); ok && x.Val == v {
+							for _, ld := range an.LoadsReachedBy(x) {
+								vals = append(vals, ld)
+							}
+						}
+					}
+				}
+			}
+		}
+	}
+	var keys []string
+	for k := range fields {
+		keys = append(keys, k)
+	}
+	sort.Strings(keys)
+	if len(sites) == 0 {
+		c.OK("C17.R6", "timer-cancel "+strings.Join(keys, ","), w.Pos(se.Pos()), "nothing invokes the stored cancel func: an armed timer runs its full course")
+		return
+	}
+	// states whose wait the timer bounds: waiting states that accept the timeout
+	timed := map[*ssa.Function][]string{} // action function (and its callees) -> timed waiting states
+	other := map[*ssa.Function]bool{}     // reached from actions of other states
+	for _, t := range ts {
+		for _, s := range t.T.Order {
+			_, acc := t.T.States[s].Events[evTimeout]
+			isTimed := acc && t.Sum[s].Events[evNoOp]
+			mark := func(fn *ssa.Function) {
+				if isTimed {
+					for _, k := range timed[fn] {
+						if k == t.key(s) {
+							return
+						}
+					}
+					timed[fn] = append(timed[fn], t.key(s))
+				} else {
+					other[fn] = true
+				}
+			}
+			for _, ex := range t.Sum[s].Execs {
+				mark(ex)
+			}
+			for _, ef := range t.Sum[s].Effects {
+				mark(ef.In)
+				if ef.Info.Static != nil {
+					mark(ef.Info.Static)
+				}
+			}
+		}
+	}
+	setters := map[*ssa.Function]bool{}
+	for _, st := range w.FieldWriters("SwapStateMachine.Current") {
+		setters[st.Parent()] = true
+	}
+	sendLike := map[*ssa.Function]bool{se: true}
+	if rec != nil {
+		sendLike[rec] = true
+	}
+	// judge: 1 after a completed transition, -1 before / independent of it, 0 cannot trace
+	var judge func(fn *ssa.Function, at ssa.Instruction, depth int, chain []string) (int, string)
+	judge = func(fn *ssa.Function, at ssa.Instruction, depth int, chain []string) (int, string) {
+		chain = append(chain, w.FuncName(fn))
+		path := strings.Join(chain, " <- ")
+		if sendLike[fn] {
+			var via []ssa.Instruction
+			for _, call := range an.Calls(fn) {
+				if g := call.Common().StaticCallee(); g != nil && setters[g] {
+					via = append(via, call)
+				}
+			}
+			for _, st := range storesTo(fn, "SwapStateMachine.Current") {
+				via = append(via, st)
+			}
+			if an.MustPassInstr(at, via) {
+				return 1, ""
+			}
+			return -1, path + ": in the state machine, but not behind the code that sets the new state"
+		}
+		if len(timed[fn]) > 0 {
+			return -1, path + ": part of the action of the timed waiting state " + strings.Join(timed[fn], ", ")
+		}
+		if other[fn] {
+			return 1, "" // an action of a state that is not a timed waiting state: the wait was left
+		}
+		// service-level code: behind the nil-error edge of a SendEvent / Recover call?
+		var later bool
+		for _, call := range an.Calls(fn) {
+			g := call.Common().StaticCallee()
+			cv, isCall := call.(*ssa.Call)
+			if g == nil || !sendLike[g] || !isCall {
+				continue
+			}
+			okE, _ := an.OkEdges(cv)
+			if len(okE) > 0 && an.EdgesDominate(okE, at.Block()) {
+				return 1, ""
+			}
+			if pathAvoiding(at, call, nil) {
+				later = true
+			}
+		}
+		if later {
+			return -1, path + ": the timer is cancelled before the event is handed to SendEvent (if the event then causes no transition the swap keeps waiting without a timer)"
+		}
+		if fn.Parent() != nil || depth >= 5 {
+			return 0, path + ": callers could not be traced"
+		}
+		var callers []ssa.CallInstruction
+		for _, g := range prodFuncs(w) {
+			if isDummy(w, g) {
+				continue
+			}
+			for _, gc := range an.Calls(g) {
+				if gc.Common().StaticCallee() == fn {
+					callers = append(callers, gc)
+				}
+			}
+		}
+		if len(callers) == 0 {
+			return -1, path + ": not behind any successful SendEvent"
+		}
+		worst, why := 1, ""
+		for _, gc := range callers {
+			if v, y := judge(gc.Parent(), gc, depth+1, chain); v < worst {
+				worst, why = v, y
+			}
+		}
+		return worst, why
+	}
+	for _, s := range sites {
+		cons := w.FuncName(s.fn) + " timer-cancel " + s.key
+		v, why := judge(s.fn, s.call, 0, nil)
+		switch v {
+		case 1:
+			c.OK("C17.R6", cons, w.Pos(s.call.Pos()), "the cancel func is invoked only after a completed transition out of the waiting state")
+		case 0:
+			c.Unknown("C17.R6", cons, w.Pos(s.call.Pos()), why)
+		default:
+			c.Bad("C17.R6", cons, w.Pos(s.call.Pos()), "the negotiation timer is released although the swap may still be in the armed waiting state: "+why)
+		}
+	}
+}
